@@ -3,6 +3,7 @@ package rules
 import (
 	"fmt"
 	"go/ast"
+	"go/token"
 	"go/types"
 	"sort"
 	"strings"
@@ -52,6 +53,7 @@ func c15(r *core.Report) {
 	c15Shared(r, scope)
 	c15Escape(r, scope)
 	c15Pool(r)
+	c15CacheKey(r)
 }
 
 // globalRoot: the package-level variable an address or container value is rooted at (through field,
@@ -417,12 +419,16 @@ func c15Shared(r *core.Report, scope []*ssa.Function) {
 							}
 						}
 					case *ssa.MapUpdate:
-						if u, ok := x.Map.(*ssa.UnOp); ok {
-							if fa, ok := u.X.(*ssa.FieldAddr); ok {
-								base = fa.X
-								_, f := fieldNames(fa.X.Type(), fa.Field)
-								what = "update of the map in field " + f
+						// the map may have travelled through locals and phis: any origin that is a field of a
+						// shared struct makes this an update of that field's map
+						for _, fa := range mapFieldOrigins(x.Map, 0, map[ssa.Value]bool{}) {
+							bn2 := core.NamedOf(fa.X.Type())
+							if bn2 == nil || !shared[bn2.Origin()] {
+								continue
 							}
+							base = fa.X
+							_, f := fieldNames(fa.X.Type(), fa.Field)
+							what = "update of the map in field " + f
 						}
 					}
 					if base == nil {
@@ -772,4 +778,140 @@ func concreteTypesOf(v ssa.Value, depth int) []types.Type {
 		return concreteTypesOf(x.X, depth+1)
 	}
 	return nil
+}
+
+// mapFieldOrigins: the field loads a map value may come from (through phis, local cells and type
+// changes).
+func mapFieldOrigins(v ssa.Value, depth int, seen map[ssa.Value]bool) []*ssa.FieldAddr {
+	if depth > 8 || seen[v] {
+		return nil
+	}
+	seen[v] = true
+	switch x := v.(type) {
+	case *ssa.UnOp:
+		if fa, ok := x.X.(*ssa.FieldAddr); ok {
+			return []*ssa.FieldAddr{fa}
+		}
+		if al, ok := x.X.(*ssa.Alloc); ok {
+			var out []*ssa.FieldAddr
+			for _, ref := range *al.Referrers() {
+				if st, ok := ref.(*ssa.Store); ok && st.Addr == ssa.Value(al) {
+					out = append(out, mapFieldOrigins(st.Val, depth+1, seen)...)
+				}
+			}
+			return out
+		}
+	case *ssa.Phi:
+		var out []*ssa.FieldAddr
+		for _, e := range x.Edges {
+			out = append(out, mapFieldOrigins(e, depth+1, seen)...)
+		}
+		return out
+	case *ssa.ChangeType:
+		return mapFieldOrigins(x.X, depth+1, seen)
+	}
+	return nil
+}
+
+// c15CacheKey: what a process-wide cache returns depends on the key alone.
+func c15CacheKey(r *core.Report) {
+	p := r.Prog
+	r.RunRule("C15.cachekey", "a process-wide cache returns the same thing to every caller: for every Store / LoadOrStore / Swap / CompareAndSwap on a package-level sync.Map of the library, each parameter of the enclosing function that the stored value depends on is also a dependency of the key, or is known to be nil where the store happens (a per-call option such as a custom regex compiler must not shape an entry that later calls without that option will load); CompareAndSwap(k, nil, v) never stores for an absent key and is not counted", 0, func() {
+		n := 0
+		for _, rel := range []string{"openapi3", "openapi3filter", "openapi3gen", "routers/gorillamux", "routers/legacy", "openapi2conv"} {
+			pk := p.PkgOpt(rel)
+			if pk == nil {
+				continue
+			}
+			info := pk.TypesInfo
+			for _, d := range p.AllDecls(rel) {
+				ff := core.NewFuncFacts(p, info, d)
+				perFn := 0
+				ast.Inspect(d.Body, func(nd ast.Node) bool {
+					c, ok := nd.(*ast.CallExpr)
+					if !ok {
+						return true
+					}
+					sel, ok := c.Fun.(*ast.SelectorExpr)
+					if !ok {
+						return true
+					}
+					callee := core.CalleeOf(info, c)
+					if callee == nil || callee.Pkg() == nil || callee.Pkg().Path() != "sync" {
+						return true
+					}
+					id, ok := ast.Unparen(sel.X).(*ast.Ident)
+					if !ok {
+						return true
+					}
+					gv, ok := info.ObjectOf(id).(*types.Var)
+					if !ok || gv.Parent() != gv.Pkg().Scope() {
+						return true
+					}
+					var keyE, valE ast.Expr
+					switch callee.Name() {
+					case "Store", "LoadOrStore", "Swap":
+						if len(c.Args) == 2 {
+							keyE, valE = c.Args[0], c.Args[1]
+						}
+					case "CompareAndSwap":
+						if len(c.Args) == 3 {
+							if core.IsNil(info, c.Args[1]) {
+								return true // never stores for an absent key
+							}
+							keyE, valE = c.Args[0], c.Args[2]
+						}
+					}
+					if keyE == nil {
+						return true
+					}
+					n++
+					perFn++
+					key := fmt.Sprintf("cachekey:%s/%s#%d", core.FuncName(d), gv.Name(), perFn)
+					kr := ff.Roots(keyE, true)
+					vr := ff.Roots(valE, true)
+					var extra []string
+					for o := range vr.Objs {
+						if kr.Objs[o] {
+							continue
+						}
+						v, isVar := o.(*types.Var)
+						if !isVar || v.Parent() == v.Pkg().Scope() {
+							continue // package-level state is the same for every caller
+						}
+						// receiver fields reached through the receiver are compared field-wise below
+						if recv := recvObj(info, d); recv != nil && o == recv {
+							continue
+						}
+						// known nil at the store?
+						isNilHere := false
+						for _, a := range core.Atoms(core.GuardsAt(info, d.Body, c)) {
+							if be, ok := ast.Unparen(a.Expr).(*ast.BinaryExpr); ok && core.IsNil(info, be.Y) {
+								if xid, ok := ast.Unparen(be.X).(*ast.Ident); ok && info.ObjectOf(xid) == o {
+									if (be.Op == token.EQL && a.Pos) || (be.Op == token.NEQ && !a.Pos) {
+										isNilHere = true
+									}
+								}
+							}
+						}
+						if !isNilHere {
+							extra = append(extra, o.Name())
+						}
+					}
+					// receiver fields the value depends on must be among the key's
+					for f := range vr.Fields {
+						if !kr.Fields[f] {
+							extra = append(extra, "field "+f.Name())
+						}
+					}
+					sort.Strings(extra)
+					r.Check(len(extra) == 0, key, p.Pos(c.Pos()), "the stored value is a function of the key", fmt.Sprintf("the value stored into the process-wide cache %s depends on %s, which is not part of the key: a call made with another %s loads an entry shaped by this one", gv.Name(), strings.Join(extra, ", "), strings.Join(extra, ", ")))
+					return true
+				})
+			}
+		}
+		if n == 0 {
+			r.Trivial("cachekey:none", "-", "no store into a package-level sync.Map (the compiled-pattern cache is only ever filled by CompareAndSwap against nil, which never stores for an absent key)")
+		}
+	})
 }
